@@ -241,6 +241,30 @@ Section Chain.
       rewrite slist_lookup bool_decide_true //. by apply ks_ok.
   Qed.
 
+  (* the code store after Commit holds the code of every live object *)
+  Lemma commit_codes r r' p cs root cs1 root' p' :
+    intermediate_root H r p cs = COk (root, cs1) → codes_ok p → code_guard p cs1 → root ≠ c_root cs1 →
+    commit H r' p cs1 = COk (root', p') →
+    codes_ok p' ∧ ∀ a o, j_objs (c_j cs1) !! a = Some o → a_code (o_data o) ≠ 0 →
+      p_codes p' !! code_hash H (a_code (o_data o)) = Some (code_bytes (a_code (o_data o))).
+  Proof.
+    intros E Hcp Hcg Hne C.
+    destruct (ir_same H H_bytes play play_empty CF r r' p cs root cs1 E) as (cs2 & E2 & Hs).
+    pose proof C as C'. unfold commit in C'. rewrite E2 in C'.
+    destruct (handle_destruction _ _ _ _ _) as [hd|]; [|done].
+    destruct (commit_objects H cs2 (map_to_list (c_muts cs2)) p) as [p1|] eqn:Eco; [|done].
+    destruct (ir_post H _ _ _ _ _ E2) as (_ & _ & t & Ht & _). rewrite Ht in C'.
+    destruct Hs as (S1 & S2 & S3 & S4 & S5 & S6 & S7 & S8).
+    rewrite S7 bool_decide_false // in C'. injection C' as _ <-. simpl.
+    assert (Hx2 : ∀ a, ext_of cs2 a = ext_of cs1 a) by (intros; by apply ext_of_same).
+    destruct (co_codes cs2 (map_to_list (c_muts cs2)) p p1 Hcp) as (A & B & Cc); [|done|].
+    { intros a m o _. rewrite S1. intros Ho. by destruct (Hcg a o Ho). }
+    split; [done|]. intros a o Ho Hc0. destruct (Hcg a o Ho) as [_ Hg]. destruct (Hg Hc0) as [Hin|(Hdc & m & Hm & Hd)].
+    - by apply B.
+    - specialize (S8 a). rewrite Hm /= in S8. destruct (c_muts cs2 !! a) as [m2|] eqn:Em2; [|done]. injection S8 as S8.
+      apply (Cc a m2 o); [by apply elem_of_list_In, elem_of_map_to_list|congruence|by rewrite S1|by rewrite Hx2].
+  Qed.
+
   (* Commit of an up-to-date state between transactions, then state.New on the new root *)
   Theorem reopen_sync r r' p cs root cs1 T root' p' :
     intermediate_root H r p cs = COk (root, cs1) →
